@@ -27,7 +27,7 @@ type c13Cfg struct {
 	Files map[string]string `json:"files,omitempty"`
 }
 
-var c13Strings = []string{"abc", "a.c", "evil", "x1", "Xb.d"}
+var c13Strings = []string{"abc", "a.c", "evil", "x1", "Xb.d", "a(b"}
 
 type c13Role struct {
 	name     string
@@ -334,7 +334,7 @@ func c13Run(w *verifrt.World, tier Tier) *RunResult {
 			case "build":
 				h, class, detail := c13Build(&c13Pool[o.Cfg])
 				g := c13Table[o.Cfg]
-				roles := strings.NewReplacer("(abc)", "", "(a.c)", "", "(evil)", "", "(x1)", "", "(Xb.d)", "").Replace(c13Pool[o.Cfg].Name)
+				roles := strings.NewReplacer("(abc)", "", "(a.c)", "", "(evil)", "", "(x1)", "", "(Xb.d)", "", "(a(b)", "").Replace(c13Pool[o.Cfg].Name)
 				switch {
 				case class == "PANIC":
 					add("build-panic", roles, "task %d op %d: building %s panicked: %s\nconfiguration:\n%s", ti, oi, c13Pool[o.Cfg].Name, detail, c13Pool[o.Cfg].Text)
@@ -371,7 +371,7 @@ func c13Run(w *verifrt.World, tier Tier) *RunResult {
 					continue
 				}
 				if clause, detail := c05Diff(want, got); clause != "" {
-					roles := strings.NewReplacer("(abc)", "", "(a.c)", "", "(evil)", "", "(x1)", "", "(Xb.d)", "").Replace(c13Pool[ci].Name)
+					roles := strings.NewReplacer("(abc)", "", "(a.c)", "", "(evil)", "", "(x1)", "", "(Xb.d)", "", "(a(b)", "").Replace(c13Pool[ci].Name)
 					add("probe-differs", roles+"/"+clause, "task %d op %d: probe %s on %s: %s\nwith the cache compiled out: %s\nhere:                        %s\nconfiguration:\n%s", ti, oi, reqs[o.Req].URI, c13Pool[ci].Name, detail, jsonOf(want), jsonOf(got), c13Pool[ci].Text)
 				}
 			}
